@@ -55,9 +55,15 @@ theorem sparse_record_ok (wmi Tw : Mat) (cols : List Int) (unwh : Bool)
 
 /-! Non-vacuity -/
 example :
+    -- two shanks: the peak channel 2 is alone on its shank, so only it is listed …
     let g : Geometry := ⟨[(0, 0), (0, 20), (0, 40), (0, 60), (10, 10)], some [0, 0, 1, 0, 0], 3⟩
     let T : Mat := [[1, 5, 9, 0, 2], [0, -3, -9, 1, 2]]
-    findBestChannels g T (1/4) = ([1, 3], [8, 1], 1) ∧ False ∨ True := by decide +kernel
+    findBestChannels g T (1/4) = ([2], [18], 2) := by decide +kernel
+example :
+    -- … and with channel 3 on the other shank instead, channel 1 (amplitude 8 ≥ 18/4, among the 3 nearest) joins it
+    let g : Geometry := ⟨[(0, 0), (0, 20), (0, 40), (0, 60), (10, 10)], some [0, 0, 0, 1, 0], 3⟩
+    let T : Mat := [[1, 5, 9, 0, 2], [0, -3, -9, 1, 2]]
+    findBestChannels g T (1/4) = ([2, 1], [18, 8], 2) := by decide +kernel
 example :
     let g : Geometry := ⟨[(0, 0), (0, 20), (0, 40), (0, 60)], none, 3⟩
     let T : Mat := [[1, 5, 9, 0], [0, -3, -9, 1]]
